@@ -58,6 +58,10 @@ def main() -> int:
         doc = j["doc"]
         comps = doc["components"]["schemas"]
         man = res["manifest"]
+        from ..harness import class_shadows_template_import
+        if class_shadows_template_import(man):
+            ev.count("documents_with_a_class_named_like_a_template_import(C01/C11 finding)")
+            continue  # annotations in such a package name the document's class instead of typing.Any / Unset ...
         for a, x in actions_results(res):
             if x.get("action_exc"):
                 ev.count("sandbox_action_failed")
